@@ -492,7 +492,7 @@ func c37Seeds() []*c37Seed {
 		c37Must(err)
 		for i, size := range []int{3, 300, 255} {
 			p := c37Fill(size, i)
-			p[0] = 0x78 // 20 ms CELT, one frame
+			p[0] = 0x78                                                                                             // 20 ms CELT, one frame
 			c37Must(w.WriteRTP(&rtp.Packet{Header: rtp.Header{Version: 2, SequenceNumber: uint16(i)}, Payload: p})) //nolint:gosec
 		}
 		c37Must(w.Close())
@@ -637,7 +637,7 @@ type c37Case struct {
 	Seed   string
 	Target string
 	Mode   string
-	Kind   string // "trunc", "sub1", "sub2", "word"
+	Kind   string // "trunc", "sub1", "dword", "sub2", "word"
 	Trunc  int
 	Off1   int
 	Val1   int
@@ -660,8 +660,37 @@ func (j *c37Job) nPairs() int64 {
 	return h * (h - 1) / 2
 }
 
+// dwords: the offsets of the seed's length fields where a whole little-endian 32-bit value fits.
+func (j *c37Job) dwords() []int {
+	var out []int
+	for _, off := range j.seed.words {
+		if off+4 <= len(j.seed.data) {
+			out = append(out, off)
+		}
+	}
+
+	return out
+}
+
+// c37DwordValue: the k-th boundary value written over a 32-bit length field: 2^32-1-d for d up to the input's
+// length + 16 (every value whose sum with an in-range offset wraps to an in-range offset), then 2^31-1-d and
+// 2^31+d for d < 16 (sign boundary of a 32-bit conversion).
+func c37DwordValue(k, dataLen int) uint32 {
+	w := dataLen + 17
+	switch {
+	case k < w:
+		return uint32(0xFFFFFFFF) - uint32(k) //nolint:gosec
+	case k < w+16:
+		return uint32(0x7FFFFFFF) - uint32(k-w) //nolint:gosec
+	default:
+		return uint32(0x80000000) + uint32(k-w-16) //nolint:gosec
+	}
+}
+
+func (j *c37Job) nDwordVals() int64 { return int64(len(j.seed.data) + 17 + 32) }
+
 func (j *c37Job) count() int64 {
-	n := int64(len(j.seed.data)+1) + int64(len(j.seed.sub1))
+	n := int64(len(j.seed.data)+1) + int64(len(j.seed.sub1)) + int64(len(j.dwords()))*j.nDwordVals()
 	if j.pairs {
 		n += j.nPairs()*25 + int64(len(j.seed.words))*65536
 	}
@@ -685,6 +714,15 @@ func (j *c37Job) decode(k int64, modeName, targetName string) c37Case {
 		return cs
 	}
 	k -= int64(len(j.seed.sub1))
+	if nd := int64(len(j.dwords())) * j.nDwordVals(); k < nd {
+		cs.Kind = "dword"
+		cs.Off1 = j.dwords()[k/j.nDwordVals()]
+		cs.Val1 = int(c37DwordValue(int(k%j.nDwordVals()), len(j.seed.data)))
+
+		return cs
+	} else { //nolint:revive
+		k -= nd
+	}
 	if np := j.nPairs() * 25; k >= np {
 		k -= np
 		off := j.seed.words[k/65536]
@@ -717,6 +755,11 @@ func c37Apply(seed []byte, cs c37Case) []byte {
 	case "sub1":
 		out := append([]byte(nil), seed...)
 		out[cs.Off1] = byte(cs.Val1) //nolint:gosec
+
+		return out
+	case "dword":
+		out := append([]byte(nil), seed...)
+		binary.LittleEndian.PutUint32(out[cs.Off1:], uint32(cs.Val1)) //nolint:gosec
 
 		return out
 	default:
@@ -964,7 +1007,7 @@ func TestVerifC37(t *testing.T) { //nolint:cyclop
 	c.Rule("for every seed (IVF by IVFWriter; 2 Ogg files by OggWriter/Writer; hand-made H.264 and H.265 Annex-B; rtpdump by its Writer; OpusHead/OpusTags/rtpdump record blobs) " +
 		"and every reader of its format (IVFReader; OggReader with checksum, with checksum after the page CRCs were recomputed over the mutation, and without checksum; " +
 		"H264Reader/H265Reader with and without SEI; rtpdump.Reader; ParseOpusHead, ParseOpusTags, rtpdump Packet/Header.Unmarshal) and every io.Reader shape {whole, one byte per Read, data+EOF}: " +
-		"every truncation offset 0..len; every single-byte substitution by {00,01,7f,80,ff} at every offset and by all 256 values at offsets < 64 and at every length/size/count/start-code byte; " +
+		"every truncation offset 0..len; every single-byte substitution by {00,01,7f,80,ff} at every offset and by all 256 values at offsets < 64 and at every length/size/count/start-code byte; every multi-byte length field overwritten as a whole little-endian 32-bit value by 2^32-1-d for every d up to the input length + 16 (all values whose sum with an offset wraps back into the input) and by 2^31-1-d, 2^31+d for d < 16; " +
 		"thorough: every pair of substitutions by the 5 values over the header region (offsets < 64 plus the field bytes, <= 128 offsets), and all 65536 values of the low 16 bits of every multi-byte length field " +
 		"(IVF header/frame sizes, Ogg segment count + first lacing value, OpusTags vendor length and comment count, rtpdump record length and packet length). " +
 		"Non-trivial: the reader accepted the header and made >= 1 unit call; distinct = (reader, stream shape, operator, calls made, final error)")
